@@ -580,3 +580,45 @@ Proof.
     + apply (K generalized_forward_composition3); [unfold combinators; simpl; tauto | now apply fx3_complete].
   - apply (K conjoin); [unfold combinators; simpl; tauto | now apply conjoin_complete].
 Qed.
+
+(* ================= labels and head flag, on every input (no domain hypothesis) ================= *)
+Definition labelled (s1 s2 : text) (c : combinator) : Prop :=
+  forall x y r, c x y = Ok_ (Some r) -> op_string r = s1 /\ op_symbol r = s2 /\ head_is_left r = false.
+Lemma comb_labels xe ye guard modf other build s1 s2 r :
+  comb_result xe ye guard modf other build s1 s2 = Ok_ (Some r) -> op_string r = s1 /\ op_symbol r = s2 /\ head_is_left r = false.
+Proof.
+  unfold comb_result. destruct guard; [|discriminate]. destruct (core xe ye) as [[m|]|e]; simpl; try discriminate.
+  intros H. inversion H. simpl. auto.
+Qed.
+Lemma fa_labelled : labelled [102;97] sym_fa forward_application.
+Proof. intros x y r. rewrite fa_eval. destruct x; [discriminate|]. apply comb_labels. Qed.
+Lemma ba_labelled : labelled [98;97] sym_ba backward_application.
+Proof. intros x y r. rewrite ba_eval. destruct y; [discriminate|]. apply comb_labels. Qed.
+Lemma fc_labelled : labelled [102;99] sym_fc forward_composition.
+Proof. intros x y r. rewrite fc_eval. destruct x; [discriminate|]. destruct y; [discriminate|]. apply comb_labels. Qed.
+Lemma bx1_labelled : labelled [98;120] (sym_bx 1) generalized_backward_composition1.
+Proof. intros x y r. rewrite bx1_eval. destruct x; [discriminate|]. destruct y; [discriminate|]. apply comb_labels. Qed.
+Lemma bx2_labelled : labelled [98;120] (sym_bx 2) generalized_backward_composition2.
+Proof. intros x y r. rewrite bx2_eval. destruct x as [|[|] ? ?]; try discriminate. destruct y; [discriminate|]. apply comb_labels. Qed.
+Lemma bx3_labelled : labelled [98;120] (sym_bx 3) generalized_backward_composition3.
+Proof. intros x y r. rewrite bx3_eval. destruct x as [|[|[|] ? ?] ? ?]; try discriminate. destruct y; [discriminate|]. apply comb_labels. Qed.
+Lemma bx4_labelled : labelled [98;120] (sym_bx 4) generalized_backward_composition4.
+Proof. intros x y r. rewrite bx4_eval. destruct x as [|[|[|[|] ? ?] ? ?] ? ?]; try discriminate. destruct y; [discriminate|]. apply comb_labels. Qed.
+Lemma fx1_labelled : labelled [102;120] (sym_fx 1) generalized_forward_composition1.
+Proof. intros x y r. rewrite fx1_eval. destruct x; [discriminate|]. destruct y; [discriminate|]. apply comb_labels. Qed.
+Lemma fx2_labelled : labelled [102;120] (sym_fx 2) generalized_forward_composition2.
+Proof. intros x y r. rewrite fx2_eval. destruct x; [discriminate|]. destruct y as [|[|] ? ?]; try discriminate. apply comb_labels. Qed.
+Lemma fx3_labelled : labelled [102;120] (sym_fx 3) generalized_forward_composition3.
+Proof. intros x y r. rewrite fx3_eval. destruct x; [discriminate|]. destruct y as [|[|[|] ? ?] ? ?]; try discriminate. apply comb_labels. Qed.
+Lemma conjoin_labelled : labelled [111;116;104;101;114] sym_sseq conjoin.
+Proof. intros x y r. rewrite conjoin_eval. destruct (_ && _); intros H; inversion H. simpl. auto. Qed.
+
+Theorem ja_labels x y rs r : apply_binary_rules x y None = Ok_ rs -> In r rs ->
+  head_is_left r = false /\ ja_op_string (op_symbol r) = Some (op_string r).
+Proof.
+  intros H Hin. rewrite apply_binary_rules_None in H. destruct (collect_In _ _ _ _ _ H Hin) as (c & Hc & E).
+  revert c Hc E. apply (combinators_cases (fun c => c x y = Ok_ (Some r) -> head_is_left r = false /\ ja_op_string (op_symbol r) = Some (op_string r))); intros E;
+    [ apply fa_labelled in E | apply ba_labelled in E | apply fc_labelled in E | apply bx1_labelled in E | apply bx2_labelled in E
+    | apply bx3_labelled in E | apply bx4_labelled in E | apply fx1_labelled in E | apply fx2_labelled in E | apply fx3_labelled in E
+    | apply conjoin_labelled in E ]; destruct E as (-> & -> & ->); split; reflexivity.
+Qed.
